@@ -22,6 +22,7 @@ LEVEL_TEXT = (
     "two statements), the handler has exactly Python's set of paths - statements executed in order, stop-flow "
     "markers propagated or consumed as Python does, finally/else/handlers entered exactly when Python enters them, "
     "context managers entered and exited per the protocol"
+    "; a manager is exited also when binding its `as` target fails; raise / raise from / raise from None build Python's chain"
 )
 LEVEL_NOTE = (
     "trusted: the abstract evaluator's model of Python control flow; nesting deeper than one level follows by "
